@@ -333,6 +333,9 @@ class RealStorageBanana(RealBanana):
     unslicerClass = _storage.StorageRootUnslicer
 
     def receiveChild(self, obj, ready_deferred):
+        from foolscap.slicers.vocab import ReplaceVocabularyTable, AddToVocabularyTable
+        if obj in (ReplaceVocabularyTable, AddToVocabularyTable):
+            return                      # the unslicer has already changed the table (RootUnslicer.receiveChild does the same)
         if ready_deferred is None:
             self.receivedObject(obj)
         else:
